@@ -10,7 +10,7 @@
 (* join offset, every writer script, every corruption position) is over    *)
 (* the packets the real sender produced.                                   *)
 (***************************************************************************)
-EXTENDS Integers, Sequences, FiniteSets, TLC, Json, IOUtils, SequencesExt
+EXTENDS Integers, Sequences, FiniteSets, TLC, Json, IOUtils, SequencesExt, PartitionCore
 CONSTANTS Mode, Family, MaxN
 
 Oti(s, e, b, p, fti) == [scheme |-> s, E |-> e, B |-> b, par |-> p, fti |-> fti]
@@ -206,6 +206,9 @@ ChanK(s) ==
     [] Family = "expiry2" -> {"first", "all", "none"} \X BOOLEAN \X {-86400, 0, 7}
     \* pseudo-random loss / duplication: seed x loss rate (percent) x duplication rate (percent)
     [] Family = "rloss"   -> (1..12) \X {3, 10, 25, 45} \X {0, 15}
+    \* the boundary of C02: exactly the symbols the property asks for (all source symbols and no repair symbol; the last k
+    \* symbols of every block; everything but the first symbol of every block), the FDT complete
+    [] Family = "boundary" -> {"srconly", "lastk", "notfirst"}
     [] Family = "c04x"    -> (1..Len(XSchemes)) \X (1..Len(XB)) \X (1..Len(XE))
     [] Family = "mem"     -> ({"nofdt", "missing", "fdtfirst", "all"} \X {1, 3, 10} \X {100, 400, 2000} \X {0, 1, 2} \X {0, -1} \X {0, -1})
                              \cup ({"refresh"} \X {1} \X {400, 2000} \X {0, 2} \X {80} \X {-1})
@@ -240,6 +243,15 @@ ChanBuild(s, k) ==
                         ELSE (k[1] = "all" \/ (k[1] = "first" /\ q.sbn = 0 /\ q.esi = 0))
          IN [sid |-> sid, fam |-> "expiry2", rcfg |-> [expiry |-> TRUE], skew |-> k[3],
              sched |-> << <<"skew", k[3]>> >> \o FlattenSeq([i \in 1..n |-> IF keep(i) THEN << <<"p", i>> >> ELSE <<>>])]
+    [] Family = "boundary" ->
+         LET keep(i) == LET q == Sess[s].pkts[i] IN
+                        IF q.k # "obj" THEN TRUE
+                        ELSE LET ob == Sess[s].objs[q.o]
+                                 kb == BlockSyms(ob.L, ob.E, ob.B, q.sbn) IN
+                             CASE k = "srconly"  -> q.esi < kb
+                               [] k = "lastk"    -> q.esi >= ob.par
+                               [] k = "notfirst" -> q.esi > 0
+         IN [sid |-> sid, fam |-> "subsets", boundary |-> k, sched |-> MaskOps([i \in 1..n |-> IF keep(i) THEN 1 ELSE 0], 1, n)]
     [] Family = "rloss"   ->
          \* deterministic hash of (seed, packet index) in 0..99; the FDT packets are lost like any other
          LET H(a, i) == (((a * 7919 + i * 104729 + i * i * 31 + a * i * 977) % 10007) * 100) \div 10007
